@@ -31,6 +31,9 @@ CHECKS = {
  "C17": dict(engine="muxhist", cat="exploration", ref="3.4",
    text="Same histories; refinement against the MuxModel: tables before the first unit, automatic PAT+PMT exactly when the accepted-call count reaches the period or RAI on the PCR PID, nowhere else except explicit WriteTables; PMT content = model stream list in insertion order with type/descriptors/PCR PID; PAT maps program 1 to the PMT PID; automatic PIDs unique and outside reserved ranges; version +1 mod 32 iff content changed.",
    note="Trusted: MuxModel transition rules (DESIGN App. A). Calls rejected for an invalid argument may or may not count towards the period (both accepted)."),
+ "C18": dict(engine="io-faults", cat="fault_enumeration", ref="3.10",
+   text="Reader side: a reference stream is served by a SimReader failing with a sentinel at byte offset k, for EVERY k in [0,len] of short streams (a stride for long ones), one-shot and sticky, as (0,E) and - sticky only - with the bytes below k, on seekable/plain/bufio readers with seeded chunk plans, explicit and auto-detected size, NextPacket and NextData: the first non-data result must be an error wrapping the sentinel (never ErrNoMorePackets), results before it a prefix of the fault-free output. Writer side: short Muxer histories (tables, WriteData whose last packet needs 0/1/2/many stuffing bytes, adaptation fields, WritePacket) on a SimWriter failing at Write call j, for EVERY j of the fault-free run, one-shot and permanent, (0,E) and short writes: the API call during which the Write failed must return an error wrapping the sentinel and n <= bytes accepted during it.",
+   note="Trusted: SimReader/SimWriter fault delivery. The (n>0,E) reader form is used with sticky errors only (io.ReadFull semantics). Nothing is asserted about calls after the reported failure."),
  "C19": dict(engine="filters", cat="exploration", ref="3.11",
    text="Reference streams are demuxed with simulator-owned callbacks that log every invocation with a deep copy of its arguments. Skipper predicates (PID set, counter value, PUSI, adaptation-field flags, seeded per-packet decisions, stateful every-n-th, skip-all, skip-none): NextPacket and NextData sequences must equal those of the stream with the selected packets deleted by the PacketChannel, the predicate must be consulted once per packet in order with header and adaptation field as the library parses them. Parsers: observer (output unchanged; groups non-empty, single PID, and on fault-free streams exactly the generated units), replacer / per-PID partial replacer (output is exactly the substituted data), failing (error wraps the callback's error, other groups unaffected).",
    note="Trusted: reference multiplexer, PacketChannel deletion, logging callbacks. A failing parser never fails on PID 0; parser errors raised during the end-of-stream drain are logged by the library, not returned, which the property allows ('when one is returned')."),
